@@ -1147,7 +1147,7 @@ func init() {
 			NotDecided:  []string{"which strings normalise to the same key; idempotence of formatPath (string-valued run-time facts)"},
 			Assumptions: []string{"strings.IndexByte returns -1 or an index < len (library contract)"},
 		},
-		Rules: []ruleFn{{"C11-SAME", ruleC11Same}, {"C11-TOTAL", ruleC11Total}, {"C11-ENC", ruleC11Enc}, {"C12-EXTEND", ruleC12Bracket}},
+		Rules: []ruleFn{{"C11-SAME", ruleC11Same}, {"C11-TOTAL", ruleC11Total}, {"C11-ENC", ruleC11Enc}, {"C12-EXTEND", ruleC12Bracket}, {"C01-REPR", ruleC01Repr}, {"C01-SPACE", ruleC01Space}},
 	})
 	register(&property{
 		Meta: propertyMeta{
